@@ -302,6 +302,17 @@ def register(reg):
         src = interp.need(args[0])
         if isinstance(src, VObj) and "_list" in src.fields:
             return VObj(cv.info, {"_list": _ops.snapshot(src.fields["_list"])}, H)
+        from pyvc.values import VList as _VL
+        if isinstance(src, _VL):
+            # Headers(<list of pairs>): every value goes through _str_header_value (may raise ValueError); nothing else is
+            # said about the new object's pairs here (over-approximation: an arbitrary list that satisfies the invariant)
+            import z3 as _z
+            if interp.ctx.choose([_z.BoolVal(True)] * 2, "Headers(list)") == 1:
+                interp.raise_("ValueError", node=node)
+            o = VObj(cv.info, {"_list": interp.fresh("List[Tuple[str, str]]", "new_headers")}, H)
+            interp.ctx.assume(__import__("pyvc.ops", fromlist=["truthy"]).truthy(
+                interp.sub(True).call(reg.spec_names["I_h"], [o], {}, None)), "Headers(list):values-checked")
+            return o
         from pyvc.ops import Unsupported
         raise Unsupported("Headers(<something that is not a Headers model>)")
     reg.constructors["werkzeug/datastructures/headers.py:Headers"] = _headers_copy
